@@ -60,11 +60,18 @@ def items(tier: str) -> List[Any]:
             if s not in seen:
                 seen.add(s)
                 out.append(("raw", s))
+    per_focus: dict = {}
     for focus, mode, s in detspaces.detector_spaces(tier, chains=False):
         if mode in ("shuffle", "g1a"):
             continue
-        if focus in ("rekey-to", "group-size-check", "can-close-account") and s not in seen:
+        full = focus in ("rekey-to", "group-size-check", "can-close-account")
+        # the other detectors share the path search; they get the atom-table layers (every comparison form once,
+        # incl. the values on the boundary of 'excluded', e.g. Fee <= 272000) in the quick tier
+        if not full and tier == "quick" and per_focus.get(focus, 0) >= 700:
+            continue
+        if s not in seen:
             seen.add(s)
+            per_focus[focus] = per_focus.get(focus, 0) + 1
             out.append((focus, s))
     return out
 
